@@ -104,6 +104,7 @@ func runC19(r *Result, d *drv.Driver, tier string, seed int64, replay string) {
 	r.sample(map[string]string{"value": "RevokeRequest{RevocationReason:{Code:1, Message:\"m\"}}", "real_encode": out})
 	c19Wire(r, seed, tier)
 	c19WireBig(r)
+	c19Reuse(r)
 	if len(parts) == 2 && parts[1] != "" {
 		for _, e := range strings.Split(parts[1], ";") {
 			f := strings.Split(e, "|")
@@ -620,6 +621,149 @@ func c19WireBig(r *Result) {
 					}
 					return 0
 				}(), g[from:min(len(g), i+80)])})
+		}
+	}
+}
+
+// c19Reuse: values that came out of Decode are Go values like any other - an application takes the Private Key
+// Template-Attribute of a Create Key Pair response and registers the key with it, takes the Name structure out of an attribute
+// and puts it into a Template-Attribute. Wherever a value is put, Encode must write it under the tag of THAT position
+// (nothing a value "remembers" from the place it was received at may decide its tag). Messages are encoded, decoded, and then
+// (a) two fields of the same structure type inside one structure are swapped, (b) structures received in one position are
+// moved to a position with another tag in another message; each result is encoded and its (tag, type) tree compared with the
+// independent serializer's for the same value.
+func c19Reuse(r *Result) {
+	var shape func(ns []*mut.Node, sb *strings.Builder)
+	shape = func(ns []*mut.Node, sb *strings.Builder) {
+		for _, n := range ns {
+			fmt.Fprintf(sb, "%06x:%d", n.Tag, n.Typ)
+			if n.Typ == 1 {
+				sb.WriteString("(")
+				shape(n.Kids, sb)
+				sb.WriteString(")")
+			}
+			sb.WriteString(" ")
+		}
+	}
+	compare := func(what string, v interface{}) {
+		res, b, _ := realEncode(v)
+		r.Evaluations++
+		r.Stats["c19reuse"]++
+		if !strings.HasPrefix(res, "ok") {
+			r.find(Finding{Kind: "violation", What: "a message assembled from decoded values could not be encoded", Input: what, Actual: res})
+			return
+		}
+		ref, ok := altEncode(v, altOpts{})
+		if !ok {
+			return
+		}
+		var got, want strings.Builder
+		shape(mut.Parse(b), &got)
+		shape(mut.Parse(ref), &want)
+		if got.String() != want.String() {
+			r.find(Finding{Kind: "violation", What: "a value taken out of a decoded message and placed elsewhere was not written under the tag of its new position",
+				Input: map[string]string{"scenario": what, "encoded": hx(b[:min(len(b), 400)])}, Expect: want.String()[:min(want.Len(), 600)], Actual: got.String()[:min(got.Len(), 600)]})
+		}
+	}
+	roundTrip := func(v interface{}) interface{} {
+		var eb bytes.Buffer
+		if err := kmip.NewEncoder(&eb).Encode(v); err != nil {
+			return nil
+		}
+		out := reflect.New(reflect.TypeOf(v).Elem())
+		if err := kmip.NewDecoder(bytes.NewReader(eb.Bytes())).Decode(out.Interface()); err != nil {
+			return nil
+		}
+		return out.Interface()
+	}
+	name, digest := kmip.Name{Value: "k1", Type: 1}, kmip.Digest{HashingAlgorithm: 6, DigestValue: []byte{1, 2, 3}, KeyFormatType: 1}
+	ta := func(n string) kmip.TemplateAttribute {
+		return kmip.TemplateAttribute{Name: kmip.Name{Value: n, Type: 1}, Attributes: kmip.Attributes{{Name: kmip.ATTRIBUTE_NAME_NAME, Value: kmip.Name{Value: n + "-attr", Type: 1}}, {Name: kmip.ATTRIBUTE_NAME_CRYPTOGRAPHIC_LENGTH, Value: int32(2048)}}}
+	}
+	ver := kmip.ProtocolVersion{Major: 1, Minor: 4}
+	// (b) across messages
+	if v := roundTrip(&kmip.Response{Header: kmip.ResponseHeader{Version: ver, TimeStamp: time.Unix(1000000000, 0), BatchCount: 1},
+		BatchItems: []kmip.ResponseBatchItem{{Operation: kmip.OPERATION_CREATE_KEY_PAIR, ResponsePayload: kmip.CreateKeyPairResponse{PrivateKeyUniqueIdentifier: "priv", PublicKeyUniqueIdentifier: "pub",
+			PrivateKeyTemplateAttribute: ta("p"), PublicKeyTemplateAttribute: ta("q")}}}}); v != nil {
+		if kp, ok := v.(*kmip.Response).BatchItems[0].ResponsePayload.(kmip.CreateKeyPairResponse); ok {
+			compare("Register request whose Template-Attribute is the Private Key Template-Attribute received in a Create Key Pair response",
+				&kmip.Request{Header: kmip.RequestHeader{Version: ver, BatchCount: 1}, BatchItems: []kmip.RequestBatchItem{{Operation: kmip.OPERATION_REGISTER,
+					RequestPayload: kmip.RegisterRequest{ObjectType: kmip.OBJECT_TYPE_PRIVATE_KEY, TemplateAttribute: kp.PrivateKeyTemplateAttribute}}}})
+			compare("Create Key Pair request whose Common / Private / Public Template-Attributes are the Public / Public / Private ones received",
+				&kmip.Request{Header: kmip.RequestHeader{Version: ver, BatchCount: 1}, BatchItems: []kmip.RequestBatchItem{{Operation: kmip.OPERATION_CREATE_KEY_PAIR,
+					RequestPayload: kmip.CreateKeyPairRequest{CommonTemplateAttribute: kp.PublicKeyTemplateAttribute, PrivateKeyTemplateAttribute: kp.PublicKeyTemplateAttribute, PublicKeyTemplateAttribute: kp.PrivateKeyTemplateAttribute}}}})
+			if len(kp.PrivateKeyTemplateAttribute.Attributes) > 0 {
+				if n, ok := kp.PrivateKeyTemplateAttribute.Attributes[0].Value.(kmip.Name); ok {
+					compare("Template-Attribute whose Name is the Name structure received as an Attribute Value", &kmip.TemplateAttribute{Name: n})
+					compare("Attribute whose value is the Name received as a Template-Attribute's Name", &kmip.Attribute{Name: kmip.ATTRIBUTE_NAME_NAME, Value: kp.PublicKeyTemplateAttribute.Name})
+				} else {
+					r.find(Finding{Kind: "disagreement", What: "c19Reuse: the decoded attribute value is no kmip.Name", Actual: fmt.Sprintf("%T", kp.PrivateKeyTemplateAttribute.Attributes[0].Value)})
+				}
+			}
+		}
+	} else {
+		r.find(Finding{Kind: "disagreement", What: "c19Reuse: the Create Key Pair response did not round-trip"})
+	}
+	if v := roundTrip(&kmip.Attribute{Name: kmip.ATTRIBUTE_NAME_DIGEST, Value: digest}); v != nil {
+		if d, ok := v.(*kmip.Attribute).Value.(kmip.Digest); ok {
+			compare("a Digest structure received as an Attribute Value, encoded on its own", &d)
+		}
+	}
+	_ = name
+	// (a) inside one structure: every pair of same-typed structure fields of every decoded big / small case swapped
+	var swapAll func(rv reflect.Value) int
+	swapAll = func(rv reflect.Value) int {
+		n := 0
+		switch rv.Kind() {
+		case reflect.Ptr, reflect.Interface:
+			if !rv.IsNil() {
+				n += swapAll(rv.Elem())
+			}
+		case reflect.Slice:
+			for i := 0; i < rv.Len(); i++ {
+				n += swapAll(rv.Index(i))
+			}
+		case reflect.Struct:
+			if rv.Type() == reflect.TypeOf(time.Time{}) {
+				return 0
+			}
+			first := map[reflect.Type]int{}
+			for i := 0; i < rv.NumField(); i++ {
+				f := rv.Field(i)
+				if f.Kind() == reflect.Struct && f.Type() != reflect.TypeOf(time.Time{}) && f.CanSet() {
+					if j, seen := first[f.Type()]; seen {
+						tmp := reflect.New(f.Type()).Elem()
+						tmp.Set(f)
+						f.Set(rv.Field(j))
+						rv.Field(j).Set(tmp)
+						n++
+						delete(first, f.Type())
+					} else {
+						first[f.Type()] = i
+					}
+				}
+			}
+			for i := 0; i < rv.NumField(); i++ {
+				if rv.Field(i).CanSet() {
+					n += swapAll(rv.Field(i))
+				}
+			}
+		}
+		return n
+	}
+	g := gen.New(977)
+	g.WF = true
+	types := gen.StructTypes()
+	for _, tn := range []string{"Request", "Response", "CreateKeyPairRequest", "CreateKeyPairResponse", "KeyBlock", "TemplateAttribute"} {
+		for k := 0; k < 12; k++ {
+			p := g.NewStruct(types[tn])
+			v := roundTrip(p.Interface())
+			if v == nil {
+				continue
+			}
+			if swapAll(reflect.ValueOf(v)) > 0 {
+				compare(fmt.Sprintf("a decoded %s in which same-typed structure fields were swapped", tn), v)
+			}
 		}
 	}
 }
